@@ -21,10 +21,11 @@ for d in /verif/seeded/*/; do
   patch=$d/patch.diff; [ -f $d/patch.rebased.diff ] && patch=$d/patch.rebased.diff
   if ! git -C $S/repo apply --check $patch 2>/dev/null; then echo "SKIPPED $id (patch no longer applies: $(jq -r .caught_by_check $d/meta.json))"; continue; fi
   git -C $S/repo apply $patch
-  if ! cargo build --offline --quiet 2> $S/build.log; then echo "BUILD-FAILED $id"; git -C $S/repo checkout -- . ; continue; fi
+  if ! cargo build --offline --quiet 2> $S/build.log; then echo "BUILD-FAILED $id: $(grep -m1 '^error' $S/build.log)"; git -C $S/repo checkout -- . ; continue; fi
   out=$(VERIF_ROOT=$S/verif $S/verif/sim/target/debug/dnp3sim check $prop quick 2>&1); rc=$?
   git -C $S/repo checkout -- .
   sig=$(echo "$out" | grep "signature:" | head -1 | sed 's/ *signature: //')
-  if [ $rc -eq 1 ]; then echo "CAUGHT  $id  $sig"; else echo "MISSED  $id  rc=$rc $(echo "$out" | tail -1)"; fi
+  runs=$(echo "$out" | tail -1 | grep -o 'runs=[0-9]*')
+  if [ $rc -eq 1 ]; then echo "CAUGHT  $id  $runs  $sig"; else echo "MISSED  $id  rc=$rc $(echo "$out" | tail -1)"; fi
 done
 cd /; git -C /repo worktree remove --force $S/repo; rm -rf $S
